@@ -420,7 +420,7 @@ fn coord_strategy() -> BoxedStrategy<f64> {
     .boxed()
 }
 
-fn list_strategy(dim: usize, nmax: usize) -> BoxedStrategy<Case> {
+pub fn list_strategy(dim: usize, nmax: usize) -> BoxedStrategy<Case> {
     (proptest::collection::vec(proptest::collection::vec(coord_strategy(), dim), 0..=nmax), prop_oneof![Just(0.0f64), Just(1e-12), Just(1e-10), Just(1e-6), Just(0.5), Just(1.0), Just(3.0)], any::<u64>(), proptest::collection::vec(any::<u16>(), 0..6))
         .prop_map(move |(mut pts, eps, salt, dups)| {
             // plant exact duplicates of existing points
